@@ -66,7 +66,7 @@ func newSrvEnv(base string, ucfg *verifref.UploadConfig, maxBytes int64) *srvEnv
 		UploadConfig: cfgPath, MaxRequestBytes: maxBytes, RequestTimeout: 10 * time.Minute,
 	}
 	h := newHandler(context.Background(), e.cfg)
-	e.srv = httptest.NewServer(h)
+	e.srv = verifrt.NewHTTPServer(h)
 	e.client = &http.Client{Timeout: 60 * time.Second}
 	return e
 }
